@@ -28,12 +28,20 @@ def make_domain(attrs, shape):
     return mbi().Domain(list(attrs), [int(s) for s in shape])
 
 
-def make_model(attrs, shape, cliques, total=1.0, elim=None, np_seed=None):
+def make_model(attrs, shape, cliques, total=1.0, elim=None, np_seed=None, late_total=None):
+    """late_total: True builds the model with another total and assigns model.total afterwards (the repository's own
+    tests and LocalInference do that); None decides from np_seed so that a third of the callers' cases do it."""
     m = mbi()
     if np_seed is not None:
         np.random.seed(int(np_seed) % (2 ** 32))
     dom = make_domain(attrs, shape)
     order = list(elim) if isinstance(elim, (list, tuple)) else elim
+    if late_total is None:
+        late_total = np_seed is not None and int(np_seed) % 3 == 0
+    if late_total:
+        model = m.GraphicalModel(dom, [tuple(c) for c in cliques], total=(1.0 if total != 1.0 else 13.0), elimination_order=order)
+        model.total = total
+        return model
     return m.GraphicalModel(dom, [tuple(c) for c in cliques], total=total, elimination_order=order)
 
 
